@@ -164,6 +164,27 @@ example : ∃ t : Cx Rat → Rat, (∀ z, 0 ≤ t z) ∧ (∀ z, t z = 0 ↔ z =
       rw [abs_eq_zero.mp h1, abs_eq_zero.mp h2]; rfl
     · intro h; rw [h]; simp [Cx.zero_def]⟩
 
+/-- **C15 (the recorded pivot row is the row at the pivot position).** Whenever `ilu_[sd]pivotL` returns 0,
+the row it records in `perm_r` (`*pivrow`) is the row subscript stored at the position it pivots on — with
+or without a remembered pivot, whether or not the remembered row is (still) among the column's candidates.
+(False of the pinned code: a remembered row that had been dropped from L was recorded while the first
+candidate was used; repaired in /repo by "fix: ilu_[sdcz]pivotL ... remembered pivot row".) -/
+theorem ilu_pivot_row_recorded (inp : PivIn Rat Rat) (p : Nat)
+    (hp : (realPivot inp).pos = some p) (hr : (realPivot inp).ret = 0) :
+    (inp.cands[p]!).row = (realPivot inp).pivrow :=
+  iluPivotChoice_row_recorded inp _ _ _ _ p hp hr
+
+/-- the same for `ilu_[cz]pivotL`, for every modulus function `t` -/
+theorem ilu_pivot_row_recorded_complex (t : Cx Rat → Rat) (inp : PivIn (Cx Rat) Rat) (p : Nat)
+    (hp : (complexPivot t inp).pos = some p) (hr : (complexPivot t inp).ret = 0) :
+    (inp.cands[p]!).row = (complexPivot t inp).pivrow :=
+  iluPivotChoice_row_recorded inp _ _ _ _ p hp hr
+
+/-- non-vacuity: a remembered row (5) that is absent from the column; the routine abandons it and records
+the row it pivots on -/
+example : (realPivot ({ jcol := 0, u := 1, usepr := true, pivrowIn := 5, diagind := 9, cands := [{ row := 2, val := 1, elig := true }, { row := 3, val := 4, elig := true }], fillTol := 1, milu := Milu.silu, dropSum := 0, freeRow := none } : PivIn Rat Rat)).pivrow = 3 := 
+    by decide +kernel
+
 /-- what the routine does when NO candidate row is eligible (SILU / SMILU_1): it reports the column as
 singular (`jcol+1`) WITHOUT choosing a pivot — the search for a free row of l.163-181 is not reached
 in these variants (the caller guarantees an eligible candidate by inserting a fill-in position into
